@@ -29,6 +29,10 @@ fn label() -> impl Strategy<Value = String> {
         1 => "_[a-z0-9]{1,8}",
         // escaped dot inside a label (RFC 1035 §5.1 "\."), e.g. the SOA RNAME convention
         2 => "[a-z0-9]{1,5}\\.[a-z0-9]{1,5}",
+        // ... also as the last or the first octet of a label (a relative name written "j\." ends
+        // in a dot character without being absolute)
+        1 => "[a-z0-9]{1,5}\\.",
+        1 => "\\.[a-z0-9]{1,5}",
     ]
 }
 
